@@ -9,7 +9,13 @@
 (* (hm).  The C05/C06/C17 predicates of StartProps.tla are evaluated on    *)
 (* the REAL history; a difference between h and hm that violates no        *)
 (* predicate is conformance drift.                                         *)
-(*   case {id, n, h, hm}                                                   *)
+(*   case {id, n, h, hm, enf}                                              *)
+(* enf = FALSE: a lock-step gate of the harness timed out, the prescribed  *)
+(* order was not enforced.  The real history is then judged only if it     *)
+(* still satisfies the environment assumption of comp/Start.tla (CanSend:  *)
+(* a replica sends elements of its iteration i+1 only after the block has  *)
+(* emitted i FlushAndRestart - the loop leader guarantees it in a real     *)
+(* job, free-running scripted sources do not).                             *)
 (***************************************************************************)
 EXTENDS Naturals, Integers, Sequences, Json, IOUtils, TLC, FiniteSets, StartProps
 
@@ -29,7 +35,16 @@ CauseOf(kind) == IF kind = "watermark_withheld:watermark" THEN "watermark"
 
 Init == l = 1 /\ nviol = 0
 
-Case(e) ==
+RECURSIVE EnvRun(_, _, _, _, _)
+EnvRun(S, h, i, ri, ro) ==
+  IF i > Len(h) THEN TRUE
+  ELSE IF h[i].d = "in"
+       THEN /\ ri[h[i].p] <= ro
+            /\ EnvRun(S, h, i + 1, IF h[i].el.k = "R" THEN [ri EXCEPT ![h[i].p] = @ + 1] ELSE ri, ro)
+       ELSE EnvRun(S, h, i + 1, ri, IF h[i].el.k = "R" THEN ro + 1 ELSE ro)
+EnvOK(S, h) == EnvRun(S, h, 1, [p \in S |-> 0], 0)
+
+Judged(e) ==
   LET m    == Judge(1..e.n, e.h)
       (* the real Start saw every Terminate: it must have terminated its output *)
       allX == \A p \in 1..e.n : \E i \in 1..Len(e.h) : e.h[i].d = "in" /\ e.h[i].p = p /\ e.h[i].el.k = "X"
@@ -39,6 +54,11 @@ Case(e) ==
                                    job |-> e.id, index |-> l, extra |-> [h |-> e.h]])>>)
      /\ (IF e.h # e.hm THEN PrintT(<<"INFO", ToJson([drift |-> e.id, real |-> e.h, model |-> e.hm])>>) ELSE TRUE)
      /\ nviol' = nviol + Cardinality(kinds)
+
+Case(e) ==
+  IF e.enf \/ EnvOK(1..e.n, e.h) THEN Judged(e)
+  ELSE /\ PrintT(<<"INFO", ToJson([unenforced |-> e.id])>>)
+       /\ UNCHANGED nviol
 
 Step ==
   /\ l <= Len(Rec)
